@@ -91,6 +91,9 @@ pub fn blocks(thorough: bool) -> Vec<Block> {
         b.push(Block::new(u_kind_triples(), vec![Cfg::new(0), Cfg::new(X), Cfg::new(R), Cfg::new(E | X)], "{}, x, r, e+x"));
         b.push(Block::new(u_long_rep(30), vec![Cfg::new(R), Cfg::new(R | NA | NE)], "r, r+na+ne"));
         b.push(Block::new(u_nested_rep(), vec![Cfg::new(R), Cfg::new(R | X)], "r, r+x"));
+        b.push(Block::new(u_long_units(), vec![Cfg::new(R), Cfg::with(R, 2, 1)], "r, r(2,1)"));
+        b.push(Block::new(u_long_prefix(), vec![Cfg::new(0), Cfg::new(NE), Cfg::new(I)], "{}, ne, i"));
+        b.push(Block::new(u_alias_pairs(), lattice_le(0, CLASS_BITS | R | I, 2), "<=2 of the class flags, r, i"));
         b.push(Block::new(u_long_literal_at(), vec![Cfg::new(X), Cfg::new(0), Cfg::new(X | NA | NE)], "x, {}, x+na+ne"));
         b.push(Block::new(u_prefix_suffix2(4), vec![Cfg::new(D), Cfg::new(R), Cfg::new(W | R)], "d, r, w+r"));
         b.push(Block::new(u_feature_rich(), full.clone(), "Lambda_full (no u,c): all 8,192 combinations"));
